@@ -168,3 +168,10 @@ def run(rep: Report, prog: Program, tier: str) -> None:
     if n_hint < 4:
         raise AnalysisError(f"retry_after_or: only {n_hint} hint-edge paths found")
     rep.floor("R20.4", 4)
+
+    rep.rule("R20.5", "the hint reaches the strategy and survives the policy: the BackoffContext handed to the strategy carries the classifier's classification (retry_after_s included) and the true remaining time (deadline - elapsed), and the strategy's finite non-negative answer is changed by the policy only through the cap at that remaining time (= C05 R5.2 / R5.3)")
+    from .c05 import check_sanitised, strategy_call_provenance
+
+    strategy_call_provenance(rep, "R20.5", prog)
+    check_sanitised(rep, "R20.5", prog)
+    rep.floor("R20.5", 20)
